@@ -29,6 +29,7 @@ type CallEntry struct {
 	Failed     bool
 	Used       bool
 	Pos        string
+	Snapshot   engine.Value // deep snapshot of the (dereferenced) result at return time
 }
 
 type CallLog struct {
@@ -150,8 +151,19 @@ func (d *Driver) external(r *engine.Run, fn *ssa.Function, args []engine.Value, 
 			continue
 		}
 		v := sb.Sym(rt, fmt.Sprintf("ret%d_%s", e.Seq, fn.Name()))
+		if p, ok := v.(engine.Pointer); ok && p.Slot == nil && pc.Conv.Spec != nil && pc.Conv.Spec.Update != nil && pc.Conv.Spec.Update.DefaultFn == e.Name {
+			// assumption: a default FUNC returns a usable (non-nil) instance
+			panic(&engine.Abort{Kind: "infeasible", Reason: "default FUNC returning nil"})
+		}
 		e.Result = v
 		e.ResultType = rt
+		if p, ok := v.(engine.Pointer); ok {
+			if p.Slot != nil {
+				e.Snapshot = DeepSnapshot(*p.Slot)
+			}
+		} else {
+			e.Snapshot = DeepSnapshot(v)
+		}
 		out = append(out, v)
 	}
 	pc.Calls.Calls = append(pc.Calls.Calls, e)
